@@ -84,6 +84,11 @@ func verifC03Sys(id string, seed int64) *verifSys {
 	fmt.Sscanf(parts[2], "U%d", &u)
 	full := parts[3] == "full"
 	sys := &verifSys{Prop: "C03", ID: id, Seed: seed}
+	var cfgReq [2]bool
+	for i := 0; i < 2; i++ {
+		cp := verifParsePol(pp[i])
+		cfgReq[i] = cp.has(requireEncryption)
+	}
 	sys.Init = func() *verifWorld {
 		w := verifNewPair(verifPairCfg{Seed: seed, PolA: verifParsePol(pp[0]), PolB: verifParsePol(pp[1]), FragA: frag, FragB: frag})
 		m := &monC03{U: u, NSend: [2]int{2, 1}, NEnd: [2]int{1, 1}, NQuery: [2]int{1, 1}, NErr: [2]int{1, 0}}
@@ -206,7 +211,7 @@ func verifC03Sys(id string, seed int64) *verifSys {
 				class = "fin"
 			case before:
 				class = "enc"
-			case c.Policies.has(requireEncryption):
+			case cfgReq[e.I]: // the policy the application configured, not what the library holds now
 				class = "queued"
 			}
 			m.M = append(m.M, c03Marker{Text: t, Owner: e.I, Class: class})
@@ -306,11 +311,14 @@ func init() {
 			r.Assumptions = []string{"data messages are opened with package-internal key material of the sender", "marker texts are the only user texts in the world"}
 			var ids []string
 			if r.Tier == "quick" {
-				for i, pol := range []string{"3", "3r", "3w", "3rw", "3re", "3ws", "3rwse", "23rs"} {
+				// sized to stay well inside the quick budget also on a loaded machine (≈ 55 k states); the thorough tier has
+				// every combination of the behaviour flags
+				ids = append(ids, "2r-2/f0/U3/lean", "23r-2/f0/U3/est")
+				for i, pol := range []string{"3", "3r", "3w", "3rw", "3re", "3rwse"} {
 					f := []int{0, 80}[i%2]
 					peer := []string{"3", "3rwse", "23ws"}[i%3]
 					kind := "lean"
-					if i == 1 || i == 6 {
+					if i == 1 {
 						kind = "full"
 					}
 					ids = append(ids, fmt.Sprintf("%s-%s/f%d/U3/%s", pol, peer, f, kind))
@@ -319,7 +327,7 @@ func init() {
 			} else {
 				// sized to complete within the 25-minute budget (≈ 1.5 M states): start states with history first, then every
 				// combination of the four behaviour flags on the sender, each against two of the four peers in turn
-				ids = append(ids, "3-3/f0/U4/est", "3e-3r/f0/U4/est", "2w-2/f80/U4/est", "3rws-3e/f0/U4/est", "2r-2/f0/U4/full", "2rw-23ws/f80/U4/lean")
+				ids = append(ids, "3-3/f0/U4/est", "3e-3r/f0/U4/est", "2w-2/f80/U4/est", "3rws-3e/f0/U4/est", "2r-2/f0/U4/full", "2rw-23ws/f80/U4/lean", "23r-2/f0/U4/est", "23rs-2r/f0/U4/lean")
 				for m := 0; m < 16; m++ {
 					f := ""
 					for i, c := range "rwse" {
